@@ -41,11 +41,13 @@ def mapCases : MapToFact → List (String × MapCase)
 /-- MapTo's type switch is the one of `MapTo.store`: signed integers through `ToInt64` under `CanInt` with the
     single-value `i.(int64)`, unsigned through `ToUint64` / `CanUint` / `i.(uint64)`, floats through `ToFloat64` /
     `CanFloat` / `i.(float64)`, strings, bools and byte slices by the field's kind; the key is `LcFirst(name)`
-    looked up with `Get`; only a non-nil pointer to a struct is touched. -/
+    looked up with `Get`; only a non-nil pointer to a struct is touched.  A clause may test the guard before the
+    cast or after it (`MapCase.castFirst`): the casters have no effect, `MapTo.viaCast` is either. -/
 theorem mapTo_as_modelled :
-    (∀ t ∈ IntTy.all, (mapCases Gen.rowFacts.mapTo).lookup (goInt t) =
+    (∀ t ∈ IntTy.all, ((mapCases Gen.rowFacts.mapTo).lookup (goInt t)).map MapCase.castFirst =
       some (if t.signed then .viaCast "ToInt64" "CanInt" "SetInt" "int64" else .viaCast "ToUint64" "CanUint" "SetUint" "uint64"))
-    ∧ (∀ n ∈ ["float32", "float64"], (mapCases Gen.rowFacts.mapTo).lookup n = some (.viaCast "ToFloat64" "CanFloat" "SetFloat" "float64"))
+    ∧ (∀ n ∈ ["float32", "float64"], ((mapCases Gen.rowFacts.mapTo).lookup n).map MapCase.castFirst
+        = some (.viaCast "ToFloat64" "CanFloat" "SetFloat" "float64"))
     ∧ (mapCases Gen.rowFacts.mapTo).lookup "string" = some (.whenKind 24 "SetString")
     ∧ (mapCases Gen.rowFacts.mapTo).lookup "bool" = some (.whenKind 1 "SetBool")
     ∧ (mapCases Gen.rowFacts.mapTo).lookup "[]byte" = some (.whenSliceOf 23 8 "SetBytes")
